@@ -96,5 +96,11 @@ def strideElem (start step : Nat) (v : List β) (x : β) (i : Nat) : β :=
 def setStride (l : List β) (start step : Nat) (v : List β) : List β :=
   l.zipIdx.map (fun p => strideElem start step v p.1 p.2)
 
+/-- `M.T` of a 2-D array given by its rows (`np.vstack((a, b, …)).T`: one output row per position, holding that
+    position of `a`, `b`, …).  A 2-D numpy array is rectangular; on ragged input (where `np.vstack` raises) the first
+    row fixes the number of output rows and missing entries are the default `d` -/
+def transpose (d : β) (m : List (List β)) : List (List β) :=
+  (List.range (m.headD []).length).map (fun i => m.map (fun r => r.getD i d))
+
 end
 end Taurex.Gen.Np
